@@ -374,6 +374,10 @@ def traversals_evaluated(rep, mod, fns, full=True):
         me = NS(nodes=nodes, lines=lines)
         me.topological_order = mk('Circuit.topological_order', me)
         me.reversed_topological_order = mk('Circuit.reversed_topological_order', me)
+        try:
+            minieval.bind_class(me, mod.cls('Circuit'), {})      # helper methods the traversals call (predicates, extracted loops) are evaluated as written
+        except (AnchorError, KeyError):
+            pass
         is_state = [state(k) for k in kinds]
         con_in = [[l for l in x.ins if l is not None] for x in nodes]
         con_out = [[l for l in x.outs if l is not None] for x in nodes]
@@ -606,10 +610,26 @@ def predicates(rep, mod, fns):
     for q in ('Circuit.topological_order', 'Circuit.reversed_topological_order', 'Circuit.topological_order_with_level'):
         for a in collect_state_atoms(fns[q]):
             sites.append((q, a))
+    # a predicate extracted into a helper method of the class (self._is_sequential(n)) is a site of its own
+    helpers = set()
+    for q in ('Circuit.topological_order', 'Circuit.reversed_topological_order', 'Circuit.topological_order_with_level'):
+        for c in find_all(fns[q], ast.Call):
+            if isinstance(c.func, ast.Attribute) and isinstance(c.func.value, ast.Name) and c.func.value.id in ('self', 'Circuit'):
+                helpers.add(c.func.attr)
+    for h in sorted(helpers):
+        try:
+            hf = mod.func(f'Circuit.{h}')
+        except (AnchorError, KeyError):
+            continue
+        if f'Circuit.{h}' in fns:
+            continue
+        for a in collect_state_atoms(hf):
+            sites.append((f'Circuit.{h}', a))
+            fns = dict(fns, **{f'Circuit.{h}': hf})
     sn = mod.func('Circuit.s_nodes')
     for a in collect_state_atoms(sn):
         sites.append(('Circuit.s_nodes', a))
-    rep.floor('state predicate sites', len(sites), 10)
+    rep.floor('state predicate sites', len(sites), 6)
     for q, (sub, node, neg, folded) in sites:
         ok = folded and sub in ('dff', 'latch')
         rep.ob('C17.pred', f'{q}: {sub!r} on {node}', ok)
